@@ -1,11 +1,195 @@
 (* Props/C06.v — Untrusted input: parsing and verifying arbitrary bytes never panics or aborts.
-   Model: coq/Model/Untrusted.v (stage 2 and 3) over coq/Model/Codec.v (stage 1, property C12). *)
+   Model: coq/Model/Untrusted.v (stage 2: typed parsers, stage 3: verifier control flow on shapes, allocation accounting)
+   over coq/Model/Codec.v (stage 1: the byte readers, property C12).  The model is the REPAIRED code (fixes/c06-*.diff);
+   the section "refuted" states by computation that each repaired check is necessary.
+   One panic remains reachable and is an open finding: Air::new cannot return an error, so a proof whose context is not the
+   one the AIR was written for (predicate [Known]) panics in the AIR's constructor. *)
 From VBase Require Import MachInt.
 From VModel Require Import Codec Untrusted.
-From VProofs Require Import CodecTypes CodecTotal UntrustedParse.
+From VProofs Require Import CodecTypes CodecTotal UntrustedParse UntrustedTyped UntrustedVerify UntrustedAlloc UntrustedRefuted.
 Open Scope Z_scope.
 
-(* ------------------------------------------------------------------------------------------ stage 1 *)
+(* ================================================================================== stage 1: Proof::from_bytes *)
+(* every byte string is answered with Ok or Err *)
 Theorem C06_parse_total : forall bs, is_bytes bs -> parse bs <> Panic.
 Proof. exact parse_total. Qed.
 Print Assumptions C06_parse_total.
+
+(* what every parsed proof satisfies (the facts the later stages rely on: validated context, counts in range, exactly one
+   set of trace queries per segment, partition exponent < 64, blobs of bytes) *)
+Theorem C06_parse_inv : forall bs p, is_bytes bs -> parse bs = Ok p -> proof_inv p.
+Proof. exact parse_inv. Qed.
+Print Assumptions C06_parse_inv.
+
+(* total capacity requested while parsing <= c * |bytes| + k with c = 25, k = 131680, whatever lengths the bytes claim *)
+Theorem C06_parse_alloc_bounded : forall bs, 0 <= parse_alloc bs <= 25 * len bs + 131680.
+Proof. intros bs. rewrite <- alloc_bound_constants. apply parse_alloc_bounded. Qed.
+Print Assumptions C06_parse_alloc_bounded.
+(* the accounting is an annotation of the reader: it returns exactly the result of Proof::from_bytes on every input *)
+Theorem C06_parse_alloc_follows_parse : forall bs, parse_alloc_result bs = parse bs.
+Proof. exact parse_alloc_follows_parse. Qed.
+Print Assumptions C06_parse_alloc_follows_parse.
+Example C06_parse_alloc_hostile_length :   (* a gkr length of 2^60: the bounded pre-allocation, not 2^60 bytes *)
+  parse_alloc ([1; 0; 0; 3; 0; 0] ++ [8] ++ to_le_bytes 8 M64 ++ [1; 2; 0; 1; 2; 0] ++ [0] ++ [0; 0] ++
+               [0; 0; 0; 0; 0; 0; 0; 0] ++ [0; 0; 0; 0; 0; 0; 0; 0] ++ [0; 0; 0; 0; 0; 0] ++ [0; 0; 0; 0] ++
+               [0; 0; 0; 0; 0; 0; 0; 0] ++ [1; 0; 0; 0; 0; 0; 0; 0; 0; 16]) = 21 + 96 + 65536 + 512.
+Proof. exact parse_alloc_hostile_length. Qed.
+
+(* ======================================================================== stage 2: the typed parsers (typed_parse_total) *)
+(* For ANY blob (of bytes) and ANY AIR-side parameters in the stated ranges the parser answers Ok or Err; the ranges are
+   the `# Panics` sections of the functions (outside them the panic is real: C06_typed_ranges_exact). *)
+Theorem C06_Commitments_parse_total : forall dl c nseg nlayers,
+  is_bytes c -> 0 <= nlayers -> nlayers + 1 <= usize_max ->
+  match Commitments_parse dl c nseg nlayers with
+  | Ok (trace_roots, fri_roots) => trace_roots = Z.max 0 nseg /\ fri_roots = nlayers + 1
+  | Err _ => True | Panic => False end.
+Proof.
+  intros dl c nseg nl Hc H0 H1. pose proof (Commitments_parse_safe dl c nseg nl Hc H0 H1) as H.
+  destruct (Commitments_parse dl c nseg nl) as [[a b]| |]; auto.
+Qed.
+Print Assumptions C06_Commitments_parse_total.
+
+Theorem C06_Queries_parse_total : forall F deg dl q domain_size num_queries values_per_query,
+  queries_ok q -> is_pow2 domain_size = true -> 0 < values_per_query <= 255 -> 0 <= num_queries <= 255 ->
+  0 <= elem_bytes F deg <= 2 ^ 32 ->
+  match Queries_parse F deg dl q domain_size num_queries values_per_query with
+  | Ok s => qs_rows s = num_queries /\ qs_cols s = values_per_query /\ 0 < num_queries
+  | Err _ => True | Panic => False end.
+Proof. exact Queries_parse_safe. Qed.
+Print Assumptions C06_Queries_parse_total.
+
+Theorem C06_OodFrame_parse_total : forall F deg f main_w aux_w num_evals,
+  ood_ok f -> 0 < main_w -> 0 <= aux_w -> main_w + aux_w <= 2 ^ 32 -> 0 < num_evals ->
+  match OodFrame_parse F deg f main_w aux_w num_evals with
+  | Ok s => os_evals s = num_evals /\
+            match os_lagrange s with
+            | Some n => 0 < n /\ 1 <= aux_w /\ os_cur s = main_w + aux_w - 1
+            | None => os_cur s = main_w + aux_w
+            end
+  | Err _ => True | Panic => False end.
+Proof. exact OodFrame_parse_safe. Qed.
+Print Assumptions C06_OodFrame_parse_total.
+
+Theorem C06_FriProof_parse_total : forall F deg dl p domain_size folding_factor,
+  fri_ok p -> is_pow2 domain_size = true -> is_pow2 folding_factor = true -> 1 < folding_factor <= 2 ^ 16 ->
+  0 < elem_bytes F deg <= 2 ^ 32 ->
+  (exists n, Fri_num_partitions p = Ok n /\ 1 <= n) /\
+  Fri_parse_remainder F deg p <> Panic /\
+  match Fri_parse_layers F deg dl p domain_size folding_factor with
+  | Ok ls => length ls = length (fri_layers p) /\ Forall (fun s => 0 < ls_queries s) ls /\
+             fold_chain (length (fri_layers p)) domain_size folding_factor
+  | Err _ => True | Panic => False end.
+Proof.
+  intros F deg dl p d ff Hp Hd Hf Hff Heb. split; [|split].
+  - apply Fri_num_partitions_ok. apply Hp.
+  - apply (rsafe_not_panic (fun n => 1 <= n)). apply Fri_parse_remainder_safe; [exact Hp | lia].
+  - exact (Fri_parse_layers_safe F deg dl p d ff Hp Hd Hf Hff Heb).
+Qed.
+Print Assumptions C06_FriProof_parse_total.
+
+Theorem C06_draw_integers_total : forall num_values domain_size, is_pow2 domain_size = true ->
+  draw_integers_shape num_values domain_size <> Panic.
+Proof. intros nq d Hd. apply (rsafe_not_panic _ _ (draw_integers_safe nq d Hd)). Qed.
+Print Assumptions C06_draw_integers_total.
+
+(* the ranges are satisfiable, errors are errors, and outside the ranges the documented panics are real *)
+Example C06_typed_ranges_exact :
+  Queries_parse F64P 1 32 (mkQ [0] (to_le_bytes 8 5)) 16 1 1 = Ok (mkQS 1 1 4 []) /\
+  Queries_parse F64P 1 32 (mkQ [0] (to_le_bytes 8 5)) 16 0 1 = Err Invalid /\
+  Queries_parse F64P 1 32 (mkQ [0] (to_le_bytes 8 5)) 12 1 1 = Panic /\
+  OodFrame_parse F64P 1 (mkOod (2 :: to_le_bytes 8 1 ++ to_le_bytes 8 2) [0] (to_le_bytes 8 3)) 1 0 1 = Ok (mkOS 1 None 1) /\
+  OodFrame_parse F64P 1 (mkOod [1] [0] (to_le_bytes 8 3)) 1 0 1 = Err Invalid /\
+  OodFrame_parse F64P 1 (mkOod [2] (1 :: to_le_bytes 8 1) (to_le_bytes 8 3)) 1 0 1 = Err Invalid /\
+  OodFrame_parse F64P 1 (mkOod [2] [0] []) 0 0 1 = Panic /\
+  Fri_parse_layers F64P 1 32 (mkFri [mkFL (to_le_bytes 8 1 ++ to_le_bytes 8 2) [0]] [] 0) 4 2 = Ok [mkLS 1 1 []] /\
+  Fri_parse_layers F64P 1 32 (mkFri [mkFL [0] [0]; mkFL [0] [0]] [] 0) 2 4 = Err Invalid /\
+  Fri_parse_layers F64P 1 32 (mkFri [] [] 0) 6 2 = Panic /\
+  draw_integers_shape 15 16 = Ok 15 /\ draw_integers_shape 16 16 = Err Invalid /\ draw_integers_shape 3 12 = Panic /\
+  Commitments_parse 2 [1; 2; 3; 4; 5; 6] 1 0 = Ok (1, 1) /\ Commitments_parse 2 [] 1 usize_max = Panic.
+Proof. exact typed_ranges_nonvacuous. Qed.
+
+(* the model's num_fri_layers loop never runs out of fuel: it is the while loop of FriOptions::num_fri_layers *)
+Theorem C06_num_fri_layers_fuel : forall extra lde ff rmd bf, 0 <= lde < 2 ^ 64 -> 2 <= ff -> 0 <= (rmd + 1) * bf ->
+  nfl_loop (64 + extra) lde ff ((rmd + 1) * bf) = num_fri_layers lde ff rmd bf.
+Proof. exact num_fri_layers_fuel. Qed.
+Print Assumptions C06_num_fri_layers_fuel.
+
+(* ============================================================================================ stage 3: verify() *)
+(* [wfAir]: a supported base field (element size, modulus bytes, two-adicity >= 31: f64, f128, f62 qualify), 1..255
+   constraint composition columns, no Lagrange kernel column.  [Known A p]: the trace layout or blowup factor claimed by
+   the proof is not what the AIR was written for. *)
+Example C06_wfField_supported : wfField F64P /\ wfField F128P /\ wfField F62P.
+Proof. exact wfField_supported. Qed.
+
+(* verifying any parsed proof against any public inputs (AIR parameters), under any acceptance policy, whatever the
+   value-dependent checks answer (orc) and however many distinct positions are drawn (k) or left after folding (kf),
+   never panics — unless the proof's context is not the AIR's *)
+Theorem C06_verify_total : forall A pol p orc k kf,
+  proof_inv p -> wfAir A -> ~ Known A p -> forall w, verify A pol p orc k kf <> VPanic w.
+Proof. exact verify_total. Qed.
+Print Assumptions C06_verify_total.
+
+(* bytes in, outcome out *)
+Theorem C06_parse_and_verify_total : forall A pol bs orc k kf,
+  is_bytes bs -> wfAir A -> (forall p, parse bs = Ok p -> ~ Known A p) ->
+  forall w, parse_and_verify A pol bs orc k kf <> O_Panic w.
+Proof. exact parse_and_verify_total. Qed.
+Print Assumptions C06_parse_and_verify_total.
+
+(* the only panics of verify() are the two assertions reached through Air::new, exactly on the Known inputs *)
+Theorem C06_verify_panics_only_in_air_new : forall A pol p orc k kf w,
+  proof_inv p -> wfAir A -> verify A pol p orc k kf = VPanic w -> Known A p /\ (w = W_air_new_layout \/ w = W_air_new_blowup).
+Proof. exact verify_panics_only_in_air_new. Qed.
+Print Assumptions C06_verify_panics_only_in_air_new.
+
+(* witness (open finding F-C06-air-new-cannot-fail): a 48-byte proof which parses; verified against an AIR with two
+   columns, or against an AIR of the right layout whose constraints need blowup 4, verify() panics *)
+Theorem C06_air_new_refuted :
+  exists p, parse tiny_proof_bytes = Ok p /\ proof_inv p /\
+    Known air_other_width p /\ verify air_other_width Pol_All p (fun _ => true) 1 (fun _ => 1) = VPanic W_air_new_layout /\
+    Known air_needs_blowup4 p /\ verify air_needs_blowup4 Pol_All p (fun _ => true) 1 (fun _ => 1) = VPanic W_air_new_blowup.
+Proof. exact air_new_refuted. Qed.
+Print Assumptions C06_air_new_refuted.
+
+(* non-vacuity of C06_verify_total: the same proof against the AIR it claims to be for is not Known and ends with an error *)
+Example C06_verify_total_nonvacuous :
+  exists p, parse tiny_proof_bytes = Ok p /\ proof_inv p /\ wfAir air_matching /\ ~ Known air_matching p /\
+            verify air_matching Pol_All p (fun _ => true) 1 (fun _ => 1) = VErr E_ProofDeserializationError.
+Proof. exact verify_total_nonvacuous. Qed.
+
+(* ===================================================================== refuted: the code before the repairs panics *)
+Theorem C06_Queries_parse_refuted : exists q, Queries_parse_unrepaired F64P 1 32 q 16 0 1 = Panic.
+Proof. exact Queries_parse_refuted. Qed.
+Print Assumptions C06_Queries_parse_refuted.
+
+Theorem C06_OodFrame_lagrange_refuted : exists f, OodFrame_parse_unrepaired F64P 1 f 1 0 1 = Panic.
+Proof. exact OodFrame_lagrange_refuted. Qed.
+Print Assumptions C06_OodFrame_lagrange_refuted.
+
+Theorem C06_OodFrame_frame_size_refuted :
+  exists f s, OodFrame_parse_unrepaired F64P 1 f 1 0 1 = Ok s /\ os_cur s < 1 /\
+              vassert (1 <=? os_cur s) W_main_frame_slice = VPanic W_main_frame_slice.
+Proof. exact OodFrame_frame_size_refuted. Qed.
+Print Assumptions C06_OodFrame_frame_size_refuted.
+
+Theorem C06_Fri_layers_refuted :
+  num_fri_layers 64 16 0 2 = 2 /\
+  exists ls, length ls = 2%nat /\ Fri_layers_loop_unrepaired F64P 1 32 ls 64 16 = Panic.
+Proof. exact Fri_layers_refuted. Qed.
+Print Assumptions C06_Fri_layers_refuted.
+
+Theorem C06_draw_integers_refuted : draw_integers_unrepaired 16 16 = Panic /\ draw_integers_shape 16 16 = Err Invalid.
+Proof. exact draw_integers_refuted. Qed.
+Print Assumptions C06_draw_integers_refuted.
+
+Theorem C06_num_partitions_refuted : Fri_num_partitions (mkFri [] [] 64) = Panic.
+Proof. exact num_partitions_refuted. Qed.
+Print Assumptions C06_num_partitions_refuted.
+
+Theorem C06_context_limits_refuted :
+  TraceInfo_new 1 (2 ^ 32) = Ok (mkTI 1 0 0 (2 ^ 32) []) /\
+  ProofOptions_new 1 2 0 FE_None 2 0 = Ok (mkPO 1 2 0 FE_None 2 0) /\
+  air_new (mkAP F64P 32 1 0 0 (2 ^ 32) 2 1 false) (mkTI 1 0 0 (2 ^ 32) []) (mkPO 1 2 0 FE_None 2 0) = VPanic W_root_of_unity /\
+  Context_new (to_le_bytes 8 M64) (mkTI 1 0 0 (2 ^ 32) []) (mkPO 1 2 0 FE_None 2 0) = Panic.
+Proof. exact context_limits_refuted. Qed.
+Print Assumptions C06_context_limits_refuted.
